@@ -540,14 +540,15 @@ Fixpoint k27_node (n : node) : bool :=
   end.
 Definition k27_list (l : list node) : bool := k27_l k27_node l.
 
-(* D28: a number directly followed by `-->` (CDC): the separator table of cssparser has no entry
+(* D28: a number followed (possibly after whitespace / comments, which value context drops) by
+   `-->` (CDC): the separator table of cssparser has no entry
    for Number x CDC, `5-->` re-tokenises as the dimension `5--` and `>`.  CDC is only well-formed
    at the top level, so only the top-level list is scanned. *)
 Fixpoint k28_list (l : list node) : bool :=
   match l with
   | [] => false
   | n :: r =>
-      (match n, r with
+      (match n, skip_ws r with
        | Leaf (TNum _) _, Leaf TCDC _ :: _ => true
        | _, _ => false
        end) || k28_list r
